@@ -4,6 +4,6 @@ CONSTANTS
   MaxRecs = 4
   MaxSrc = 3
   MaxK = 2
-INVARIANT TypeInv ReadsReturnWritesInOrder OffsetIsSum OneAnswer RefusalOnlyAtEnd DeliveredIsView ReadAnswers SinkIsAccepted PredOneAnswer TotalRefusal
+INVARIANT TypeInv ReadsReturnWritesInOrder OffsetIsSum ThroughAnswers OneAnswer RefusalOnlyAtEnd DeliveredIsView ReadAnswers SinkIsAccepted PredOneAnswer TotalRefusal
 PROPERTY WriteWindow
 CHECK_DEADLOCK FALSE
